@@ -99,6 +99,7 @@ def run(ctx):
         check_no_break(ctx, f)
 
     check_stop_only_on_callback(ctx, vis)
+    check_nested_depth(ctx)
     check_origins(ctx, vis)
     check_callback_args(ctx, vis)
     check_self_package(ctx, vis)
@@ -134,6 +135,40 @@ def check_stop_only_on_callback(ctx, vis):
                        "`%s` answers `false` (stop the walk) on a path that does not depend on the callback: a position without a package reference ends discovery, later references are never reported"
                        % f.id.rsplit("::", 1)[1], site="%s in %s" % (st.span, f.id))
     ctx.ob("R17.1", "stop-sites", True, "constant `false` results in visitor methods: %d" % n, nontrivial=False)
+
+
+def check_nested_depth(ctx):
+    """R17.1 `nested-any-depth`: a parenthesised expression can nest to any depth, so the visitor's handling of
+    `PrimaryExpr::Nested` recurses into `expr` (or loops): a single unwrapping misses `((new a:b {}))`."""
+    db, prov = ctx.db, ctx.prov
+    f = db.fns.get(VIS + "expr")
+    if f is None:
+        ctx.lost("R17.1", VIS + "expr")
+        return
+    cfg = CFG(f)
+    import tables
+    ok = False
+    seen = False
+    for bidx, adt, arms, other in tables.switch_arms(db, prov, f):
+        if not adt.endswith("PrimaryExpr"):
+            continue
+        for v, tg in arms:
+            if v != "Nested":
+                continue
+            seen = True
+            mine = cfg.reach_forward(tg)
+            others = set()
+            for v2, tg2 in arms:
+                if tg2 != tg:
+                    others |= cfg.reach_forward(tg2)
+            region = mine - others
+            rec = any(cfg.blocks[b].term.k == "call" and cfg.blocks[b].term.path == f.id for b in region)
+            loop = any(cfg.reaches(b, bidx) for b in region)      # the arm leads back to the dispatch (`while let` / `loop`)
+            ok = ok or rec or loop
+    ctx.ob("R17.1", "nested-any-depth", seen and ok,
+           "the Nested arm recurses (or loops) into the inner expression" if seen and ok else
+           "parentheses are unwrapped a fixed number of times (%s): a `new` inside deeper parentheses is never reported although resolution asks for its package" % ("no Nested arm found" if not seen else "no recursion or loop in the Nested arm"),
+           site=f.span)
 
 
 def check_no_break(ctx, f):
